@@ -502,3 +502,5 @@ N("k-n-cache-alias", UT, "@functools.lru_cache(maxsize=None)\ndef cnf", "@functo
 N("k-n-operators-comp", SG, '''    "<": operator.lt,
     "<=": operator.le,''', '''    "<=": operator.le,
     "<": operator.lt,''', props=["C03"])
+M("i-parse-or-and", SI, """            operator.or_, map(parse_version_specifier, spec.split("||"))""", """            operator.and_, map(parse_version_specifier, spec.split("||"))""", fire=["C05", "C06"])
+M("i-from-set-seed", SI, """        operator.and_, map(_from_pkg_specifier, spec), RangeSpecifier()""", """        operator.or_, map(_from_pkg_specifier, spec), RangeSpecifier()""", fire=["C05", "C04"])
